@@ -6,7 +6,7 @@
 
 What it does
  1. The shim modules (opcode table, EVM_* constants, scaled stack, cut-down Policy + deadline
-    functions) are regenerated from the CURRENT /repo working tree by the crate's build.rs;
+    functions, the runtime-free helpers of instructions/memory.rs) are regenerated from the CURRENT /repo working tree by the crate's build.rs;
     cargo re-runs it whenever one of the /repo files it reads has changed.  The real sources
     are `#[path]`-included, so every run compiles against the current /repo files.
  2. ONE `cargo kani` invocation builds the crate (only the cargo feature(s) = module(s) of the
